@@ -303,6 +303,8 @@ func shapeMain(root, out string) error {
 	lfr := cl.fn("ClientConn", "listenForRead")
 	nac := cl.fn("ClientConn", "newAddrConn")
 	rmc := cl.fn("ClientConn", "registerMethodCall")
+	shr := sv.fn("Server", "handleRead")
+	swr := ws.fn("WebsocketServer", "Write")
 	facts["struct"] = map[string]bool{
 		// handing a response to its call never blocks (the model's response goroutine ends by its own step): the delivery is
 		// a select with a default arm on a channel which has room
@@ -320,6 +322,16 @@ func shapeMain(root, out string) error {
 		// when the write pump of a server session has ended, start() closes the transport (closeConn), which is what lets a
 		// read pump holding a message go (the model's wp_leave sets cconn)
 		"start_closes_transport": hasCall(deferred(sst), "s.Close"),
+		// the read pump of a server session tells the write pump that it has ended (the model's LRp sets cwp), and the write
+		// pump leaves on that (LWpCwp)
+		"srp_closes_cwp": hasCall(deferred(srp), "close"),
+		"swp_cwp_arm":    hasSelectWith(body(swp), "<-s.closeWritePump", "<-s.write", "<-s.closeConn"),
+		// the reader of a server session ends when the close callback has released it (LHr)
+		"shr_done_arm": hasSelectWith(body(shr), "<-tr.Read(", "<-done"),
+		// a Write which waits for the write pump is released by the caller's context and by the end of the transport: the
+		// hand-over to the pump is one select with all of these arms (a request or response goroutine inside Write leaves)
+		"swr_arms": hasSelectWith(body(swr), "s.write <- ", "<-ctx.Done(", "<-s.closeConn", "<-s.closeWritePump"),
+		"wr_arms":  hasSelectWith(body(wr), "c.write <- ", "<-ctx.Done(", "<-c.closeConn", "<-c.writeDone"),
 	}
 	b, _ := json.MarshalIndent(facts, "", " ")
 	if err := os.WriteFile(out, b, 0o644); err != nil {
